@@ -19,6 +19,10 @@ def write_segy(path, traces, cols, dt_us, fmt=5, grid=None, ext_headers=0, text=
     """traces: (n, ns) float32 in file order.  cols: dict field code -> int array (n) or int.
     grid: (ilines, xlines) for a regular inline-sorted cube (n == len(il)*len(xl)), else None."""
     traces = np.ascontiguousarray(traces, dtype=np.float32)
+    if fmt == 1:
+        # segyio's float -> IBM conversion of float32 denormals is not reproducible (two writes of the
+        # same values give different bytes): IBM sources hold 0 or |x| >= 1e-30
+        traces = np.where(np.abs(traces) < 1e-30, np.float32(0), traces).astype(np.float32)
     n, ns = traces.shape
     sp = segyio.spec()
     sp.format = fmt
